@@ -166,3 +166,16 @@ def paths_to_final(game):
                 seen.add(u)
                 todo.append(u)
     return seen
+
+
+def replay_input(data):
+    """the concrete input stored in a replay file, or None (a replay that only names a broken theorem/correspondence)"""
+    if data.get("input"):
+        return data["input"]
+    for d in data.get("details") or []:
+        if d.get("input"):
+            return d["input"]
+    print("this replay names what no longer checks but carries no concrete input:")
+    for d in data.get("details") or []:
+        print("  -", d.get("broken"), (d.get("what") or d.get("problems") or d.get("error") or "")[:300] if not isinstance(d.get("problems"), list) else d.get("problems"))
+    return None
